@@ -153,6 +153,33 @@ func TestVerifDurable(t *testing.T) {
 		}
 		blocked := false
 		closed, walClosed := false, false
+		// age class of every rotated WAL file (0 younger than MinFileAge, 1 in between, 2 older than
+		// safeAge); the mtimes are set from the classes right before the tick reads them, so that the
+		// wall-clock time a trace takes on a loaded machine never moves a file into another class
+		ageClass := map[string]int{}
+		applyAges := func() {
+			if walDir == "" {
+				return
+			}
+			files, _ := filepath.Glob(filepath.Join(walDir, "*.wal"))
+			cur := w.CurrentFile()
+			now := time.Now()
+			for _, f := range files {
+				if f == cur {
+					continue
+				}
+				when := now
+				switch ageClass[f] {
+				case 1:
+					when = now.Add(-10 * time.Second)
+				case 2:
+					when = now.Add(-time.Hour)
+				}
+				if err := os.Chtimes(f, when, when); err != nil {
+					t.Fatal(err)
+				}
+			}
+		}
 		colCallback := func(ctx context.Context, database, measurement string, columns map[string][]interface{}) error {
 			if database == "" {
 				database = "default"
@@ -238,23 +265,25 @@ func TestVerifDurable(t *testing.T) {
 				_ = ab.FlushAll(context.Background())
 				settle()
 			case "age":
-				age := 10 * time.Second
-				if op.Old {
-					age = time.Hour
+				// time only passes: a rotated file moves to the class "older than MinFileAge" (old = false)
+				// or "older than safeAge" (old = true) and never back
+				if w == nil {
+					break
 				}
 				files, _ := filepath.Glob(filepath.Join(walDir, "*.wal"))
 				cur := w.CurrentFile()
-				when := time.Now().Add(-age)
+				cls := 1
+				if op.Old {
+					cls = 2
+				}
 				for _, f := range files {
-					if f == cur {
-						continue
-					}
-					if err := os.Chtimes(f, when, when); err != nil {
-						t.Fatal(err)
+					if f != cur && ageClass[f] < cls {
+						ageClass[f] = cls
 					}
 				}
 			case "tick":
 				// periodic WAL maintenance of cmd/arc/main.go, one ticker fire
+				applyAges()
 				if ab.HasFlushFailure() {
 					// keep the flush worker inside storage.Write while the tick body runs: the order
 					// "replay enqueues, ResetFlushFailure, asynchronous flushes finish" is then fixed
